@@ -132,7 +132,10 @@ def end_to_end(rep, accs, tier, sd, wd):
     notload = []
     for c in cases:
         runs = c.get('runs') or []
-        if c.get('skipped') or not runs or runs[0]['cfg'] != 'default' or runs[0]['data'] != c['expect']:
+        # "a tape that loads": some configuration (not necessarily the default one, which has fast-load=1) loads exactly the
+        # bytes on the tape and reaches --start; every run is then judged against the tape's bytes
+        loads_somewhere = any(u['err'] == '' and u['pc'] == c['start'] and u['data'] == c['expect'] for u in runs)
+        if c.get('skipped') or not runs or runs[0]['cfg'] != 'default' or not loads_somewhere:
             notload.append(c['key'])
         else:
             live.append(c)
@@ -143,7 +146,7 @@ def end_to_end(rep, accs, tier, sd, wd):
     if nstack < 6:
         raise MachineryError('only %d tapes load a ROM block over the return stack' % nstack)
     if ncustom < 0.7 * n * rounds or len(shapes) < 0.7 * n or nb12 < 10:
-        raise MachineryError('too few tapes load in the default configuration: custom %d (shapes %d of %d), bin2tap %d; not loading: %s'
+        raise MachineryError('too few tapes load: custom %d (shapes %d of %d), bin2tap %d; not loading: %s'
                              % (ncustom, len(shapes), n, nb12, notload[:8]))
     # pairwise cover of the speed-up options over the suite (vacuity)
     seen = set()
@@ -169,7 +172,7 @@ def end_to_end(rep, accs, tier, sd, wd):
     missing = need - seen
     if missing:
         raise MachineryError('configuration pairs never exercised: %s' % sorted(missing)[:6])
-    log('C13: %d tapes (%d custom-loader over %d loop shapes, %d bin2tap), %d tap2sna runs; %d tapes not loading by default'
+    log('C13: %d tapes (%d custom-loader over %d loop shapes, %d bin2tap), %d tap2sna runs; %d tapes not loading in any configuration'
         % (len(live), ncustom, len(shapes), nb12, sum(len(c['runs']) for c in live), len(notload)))
     if not all(u['t'] >= 0 for c in live for u in c['runs'] if not u['err']):
         raise MachineryError('the clock could not be observed (tap2sna.get_state hook)')
@@ -194,7 +197,7 @@ def end_to_end(rep, accs, tier, sd, wd):
         slim['runs'] = [{k: v for k, v in x.items() if k != 'pages'} for x in (c['runs'][0], lead, u)]
         rep.violation('e2e:%s:%s:%s' % (kind, cl, u['cfg']),
                       'tape %s (--start %d): configuration [%s] vs [%s]: %s differs (pc %d/%d sp %d/%d R %d/%d T %d/%d) %s'
-                      % (c['key'], c['start'], u['cfg'], lead['cfg'] if cl in ('registers', 'r', 'tstates', 'ram', '7ffd') else c['runs'][0]['cfg'],
+                      % (c['key'], c['start'], u['cfg'], lead['cfg'] if cl in ('registers', 'r', 'tstates', 'ram', '7ffd') else ('the bytes on the tape' if cl == 'data-bytes' else c['runs'][0]['cfg']),
                          cl, u['pc'], lead['pc'], u['sp'], lead['sp'], u['r'], lead['r'], u['t'], lead['t'], u['err'][:120]), slim)
     rep.extra['end_to_end'] = dict(tapes=len(live), custom=ncustom, rom_block_over_stack=nstack, loop_shapes=sorted(shapes), bin2tap=nb12,
                                    runs=sum(len(c['runs']) for c in live), not_loading_by_default=notload,
